@@ -55,11 +55,14 @@ func dumpTree(e *eval.Expr) (t *term.Term, text string, err error) {
 
 // corpus returns the CORE and RICH programs up to the given bounds.
 func corpus(coreMax, richMax int) (progs []*Prog, nCore int) {
-	progs = Programs(Core(), []term.Ty{B}, coreMax)
-	nCore = len(progs)
-	progs = append(progs, Programs(Rich(), []term.Ty{B, I}, richMax)...)
-	progs = append(progs, widePrograms(5)...)
+	// hand-written and wide programs first: they are few, and a run that is cut
+	// short by its time budget has then covered them
 	progs = append(progs, extraPrograms()...)
+	progs = append(progs, widePrograms(5)...)
+	core := Programs(Core(), []term.Ty{B}, coreMax)
+	nCore = len(core)
+	progs = append(progs, core...)
+	progs = append(progs, Programs(Rich(), []term.Ty{B, I}, richMax)...)
 	return progs, nCore
 }
 
